@@ -49,6 +49,8 @@ EvDeliver == /\ Is("deliver") /\ Adv
              /\ (PDeliverLatest \/ PDeliver)
              /\ hist' # hist /\ hist'[Len(hist')] = <<Rec[l].vol, Rec[l].seq>>
              /\ Rec[l].data_ok /\ Rec[l].id_ok
+(* statistics events belong to PollStats.tla (growth); they are skipped here *)
+EvStat == Is("stat") /\ Adv /\ UNCHANGED vars
 EvReturn == /\ Is("return") /\ result # "running" /\ (Rec[l].ok <=> result = "ok") /\ Adv /\ UNCHANGED vars
 
 SilentAlways == (PLoopTop \/ PNext \/ (PSearch /\ ~Is("probe"))) /\ UNCHANGED l
@@ -73,7 +75,7 @@ EvReqFail == /\ ~Requests /\ Is("req") /\ Adv
 EvReqStutter == ~Requests /\ Is("req") /\ Adv /\ UNCHANGED vars
 SilentRequests == SilentSuccess \/ EvReqFail \/ EvReqStutter
 
-TNext == EvProbe \/ EvUpload \/ EvStop \/ EvDrop \/ (Requests /\ (EvList \/ EvGet)) \/ EvDeliver \/ EvReturn \/ SilentAlways \/ SilentSendFail \/ SilentRequests
+TNext == EvStat \/ EvProbe \/ EvUpload \/ EvStop \/ EvDrop \/ (Requests /\ (EvList \/ EvGet)) \/ EvDeliver \/ EvReturn \/ SilentAlways \/ SilentSendFail \/ SilentRequests
 TSpec == TInit /\ [][TNext]_tvars
 
 Track == IF l > TLCGet(7) THEN TLCSet(7, l) ELSE TRUE
